@@ -166,13 +166,24 @@ def _exc(ex):
 
 
 def _stage(ex):
-    """where a plot_coordinate_diagram exception came from: 'enum' = the pathway
-    enumeration / span evaluation, 'draw' = the layout and drawing after it"""
+    """where a plot_coordinate_diagram exception came from: ('enum', '') = the pathway
+    enumeration / span evaluation; ('draw', site) = the layout and drawing after it, site =
+    'x_vals' (a look-up of a state's x position), 'splrep' (the spline through a transition
+    state) or '' (anywhere else)"""
     import traceback
-    names = [(f.filename, f.name) for f in traceback.extract_tb(ex.__traceback__)]
+    frames = traceback.extract_tb(ex.__traceback__)
+    names = [(f.filename, f.name) for f in frames]
     if any(n in ('get_E_span', 'get_state_quantity', 'rec') or 'networkx' in fn for fn, n in names):
-        return 'enum'
-    return 'draw'
+        return 'enum', ''
+    site = ''
+    own = [f for f in frames if f.filename.endswith('network.py') and f.name == 'plot_coordinate_diagram']
+    if own:
+        line = own[-1].line or ''
+        if isinstance(ex, KeyError) and 'x_vals[' in line:
+            site = 'x_vals'
+        elif isinstance(ex, ValueError) and 'splrep' in line:
+            site = 'splrep'
+    return 'draw', site
 
 
 def _target_arg(R, tg, as_list):
@@ -257,7 +268,8 @@ def do_diagram(R, net_obj, recd, q):
     except core.MachineryError:
         raise
     except Exception as ex:
-        ev['raised'], ev['stage'] = _exc(ex), _stage(ex)
+        ev['raised'] = _exc(ex)
+        ev['stage'], ev['site'] = _stage(ex)
         ev['exc'] = type(ex).__name__
         plt.close('all')
     calls = recd.take()
@@ -603,6 +615,7 @@ def _tags(case, ev, detail=None):
     if ev and ev.get('ev') == 'diagram':
         t['stage'] = ev.get('stage', '')
         t['exc'] = ev.get('exc', '')
+        t['site'] = ev.get('site', '')
         t['delim'] = ev.get('delim', '+')
     if ev and ev.get('ev') == 'build':
         t['inc'] = ev['inc']
